@@ -263,6 +263,7 @@ def norm_val_spec(v):
         return ("tuple", tuple((nm(f["nm"]), norm_val_spec(f["val"])) for f in v["fs"]))
     if t == "con":
         return ("constraint", tuple(("exact", norm_val_spec(a["v"])) if a["a"] == "exact" else
+                                    ("exact", norm_val_spec(a["c"])) if a["a"] == "sub" else
                                     ("irange", tuple(a["lo"]), tuple(a["hi"])) for a in v["arms"]))
     raise ValueError("spec value tag " + t)
 
